@@ -283,6 +283,23 @@ class C14(Prop):
             self.trace_rule(sc, log0, col, case, rc0)
             # sanity of the clean run itself
             self.judge(sc, start, clean, clean, {"monitor": "fault", "k": 0, "event": "none (clean run)"}, col, case)
+            # short writes: a write that the kernel accepts only partly (quota, RLIMIT_FSIZE, full disk). Only os.write() can be
+            # made short from inside the interpreter (file objects loop in C until everything is written): enough for code
+            # that writes with a single os.write() and drops its return value
+            self.setup_dir(sc, root)
+            real_write = os.write
+
+            def short_write(fd, data):
+                return real_write(fd, bytes(data)[:7]) if fd > 2 else real_write(fd, data)
+            os.write = short_write
+            try:
+                self.run_cli(sc, root)
+            finally:
+                os.write = real_write
+            col.case()
+            col.mon("fault")
+            col.count("short_write_runs")
+            self.judge(sc, start, clean, self.snapshot(root), {"monitor": "fault", "k": -1, "event": "os.write accepts at most 7 bytes per call"}, col, case)
             n = len(log0)
             col.hist("events_per_scenario", f"{sc['name']}:{n}")
             for k in range(1, n + 1):
